@@ -1,47 +1,50 @@
-import RawPanelVerif.Lemmas.GorwpBridge
+import RawPanelVerif.Lemmas.GorwpDispatch
+import RawPanelVerif.Lemmas.GorwpLts
 /-!
 # C19 — the high-level client `gorwp`: property theorems
 
-(a) the pure dispatch / state functions (`Model/Gorwp.lean`, mirroring `procesMessagesFromPanel`) against the
-    independent specification `Spec/GorwpSpec.lean`, for every binding set and every history;
-(b) the LTS of reader + select loop with bounded queues: positive theorems for the repaired variants, `decide`
-    counterexamples for the pinned code.
+(a) The pure functions of `Model/Gorwp.lean` (mirroring `procesMessagesFromPanel`, the reader's message filter, `Bind*`,
+    `Connect`/`init`) against the independent specification `Spec/GorwpSpec.lean`, for every binding set and history:
+  * `dispatch_exactly_once_in_order` — the invocation log of every history is, event by event in panel order, what the
+    event owes: for every kind of handler exactly one invocation if it is bound to the event's id and the event matches,
+    none otherwise, with the event's id, press state and edge or value.  The specification (`checkLog`/`groupOk`) says
+    this by counting per kind and by membership (`groupOk_means_exactly_once`); it does not compute an expected log.
+  * `dispatchDyn_exactly_once_in_order` — the same for runs that interleave `Bind*` calls with events (a handler bound
+    before an event is dispatched sees it, one bound after does not); `dispatchDyn_append`, `bindingsAfter_bind_has`;
+    `rebinding_does_not_change_dispatch` — re-registering registered handlers anywhere in between changes nothing
+    (what the harness's registration-race scripts do).
+  * `effects_are_ack_then_invocations`, `ping_gets_one_ack`.
+  * `getters_return_latest`, `availability_is_latest`, `init_iff_four_items`;
+    `topology_getter_from_latest_json` — ASSUMES what the model states in `PState.topoSrc`: every topology update
+    parses into a FRESH object (rawpanel.go 321), so the object handed out depends on the latest JSON text only.  On the
+    implementation this is checked by the harness (digest of `GetTopology()` = digest of a fresh parse of the stored
+    JSON: Spec clause `getter_topology_not_latest`, driver `tg = tf`), not by this theorem.
+  * `reader_filter_transparent`, `client_dispatch_exactly_once_in_order[_keep_all]` — the reader drops messages whose
+    flow field is ACK (binary) / `ack` lines (ASCII): nothing is lost provided such a message carries nothing else.
+    `ack_message_with_event_dropped_counterexample`: CODE AS IT IS, binary: an ACK message that carries an event is
+    dropped whole — the handler is not invoked (guard exact).  OPEN FINDING, reported, library unchanged.
+  * `connect_succeeds_iff_four_items_in_window` — `Connect` as it should be (a cancelled context during initialisation
+    is an error unless initialised; model flag `strictInit`): for every course of the initialisation window, success ⇔
+    model, serial, topology JSON and SVG arrived within it (`Spec.connectResult`).
+    `connect_pinned_ok_when_connection_survives_window` / `connect_pinned_succeeds_on_lost_connection` /
+    `connect_pinned_success_on_lost_connection_counterexample`: CODE AS IT IS returns success whenever the connection is
+    lost inside the window (panel closes, over-limit header, stalled frame).  OPEN FINDING, reported, library unchanged.
+(b) The LTS of the goroutines around the two bounded queues, for all capacities (`caps` = the ones in the source).
+    The code as it is has THREE goroutines — reader, dispatcher, writer (+ ticker); the pinned code had one `select`
+    loop doing dispatch and writing.
+  * `nothing_after_broken_frame` (reader with the over-limit `return`); pinned: `overlimit_keeps_parsing_counterexample`,
+    `overlimit_repaired_on_trace`.
+  * pinned single loop: `queue_self_deadlock_counterexample`, `pinned_blocked_is_permanent`.
+  * code as it is: `decoupled_blocked_is_released[_any_capacity]`, `no_stuck_state_with_pending_events[_any_capacity]`
+    (deadlock freedom), `progress_measure_decreases` + `tickfree_execution_bounded` (every step of reader, dispatcher,
+    writer decreases `measure`; a tick adds ≤ 1), `all_dispatched_eventually` (every infinite run that is strongly fair
+    to reader, dispatcher and writer eventually has dispatched exactly the messages before the first broken frame;
+    `demoRun`/`demo_fair`: such runs exist).
 -/
 namespace RawPanelVerif.C19
-open RawPanelVerif.Gorwp RawPanelVerif.Spec.Gorwp RawPanelVerif.GorwpBridge
+open RawPanelVerif.Gorwp RawPanelVerif.Spec.Gorwp RawPanelVerif.GorwpBridge RawPanelVerif.GorwpDispatch RawPanelVerif.GorwpLts
 
 /-! ## (a) dispatch -/
-
-theorem map_ite_single {α β} (f : α → β) (c : Prop) [Decidable c] (x : α) :
-    (if c then [x] else []).map f = if c then [f x] else [] := by
-  split <;> rfl
-
-theorem expectedFor_eq (b : Bindings) (e : Event) :
-    (dispatchEvent b e).map toSInv = expectedFor (toSBindings b) (toSEvent e) := by
-  obtain ⟨id, bin, pul, ab, sp⟩ := e
-  unfold dispatchEvent expectedFor
-  simp only [List.map_append, toSBindings, toSEvent, map_ite_single]
-  cases bin <;> cases pul <;> cases ab <;> cases sp <;>
-    simp [map_ite_single, toSInv, toSEvent] <;> rfl
-
-theorem sameMultiset_refl (l : List SInv) : sameMultiset l l = true := by
-  simp [sameMultiset]
-
-theorem checkLog_group (sb : SBindings) (e : SEvent) (es : List SEvent) (rest : List SInv) :
-    checkLog sb (e :: es) (expectedFor sb e ++ rest) = checkLog sb es rest := by
-  simp only [checkLog]
-  have ht : (expectedFor sb e ++ rest).take (expectedFor sb e).length = expectedFor sb e := by simp
-  have hd : (expectedFor sb e ++ rest).drop (expectedFor sb e).length = rest := by simp
-  rw [ht, hd]
-  simp [sameMultiset_refl]
-
-theorem checkLog_events (b : Bindings) : ∀ evs : List Event,
-    checkLog (toSBindings b) (evs.map toSEvent) ((evs.flatMap (dispatchEvent b)).map toSInv) = .ok
-  | [] => by simp [checkLog]
-  | e :: es => by
-    simp only [List.map_cons, List.flatMap_cons, List.map_append]
-    rw [expectedFor_eq, checkLog_group]
-    exact checkLog_events b es
 
 theorem eventsOf_append (a b : List Item) : eventsOf (a ++ b) = eventsOf a ++ eventsOf b := by
   simp [eventsOf]
@@ -80,12 +83,120 @@ theorem dispatch_flat (b : Bindings) : ∀ h : List OutMsg, dispatch b h = (h.fl
     simp only [List.flatMap_cons, List.flatMap_append]
     rw [ih]; rfl
 
-/-- for every binding set and every history: the invocation log is exactly, event by event in panel order, one
-invocation per bound handler whose kind matches a component of the event, with the event's id and arguments -/
+/-! ### registrations interleaved with events -/
+
+/-- `Bind*` DURING DISPATCH.  For every initial binding set and every run of registrations and events (in the order in
+which they took the lock): the invocation log is exactly, event by event in order, what that event owes to the
+handlers registered BEFORE it — for every kind of handler exactly one invocation if it is bound to the event's id and
+the event matches, none otherwise, with the event's id and arguments (`Spec.Gorwp.groupOk`).  So a handler bound before
+an event is dispatched sees it, and exactly-once holds whatever is registered in between. -/
+theorem dispatchDyn_exactly_once_in_order : ∀ (items : List DynItem) (b : Bindings),
+    checkLogDyn (toSBindings b) (items.map toSDyn) ((dispatchDyn b items).map toSInv) = .ok
+  | [], _ => by simp [dispatchDyn, checkLogDyn]
+  | .bind k id :: r, b => by
+    simp only [List.map_cons, toSDyn, dispatchDyn, checkLogDyn]
+    rw [← toSBindings_add]
+    exact dispatchDyn_exactly_once_in_order r (b.add k id)
+  | .event e :: r, b => by
+    simp only [List.map_cons, toSDyn, dispatchDyn, List.map_append]
+    rw [checkLogDyn_group _ _ _ _ _ (group_of_dispatchEvent b e).1 (group_of_dispatchEvent b e).2]
+    exact dispatchDyn_exactly_once_in_order r b
+
+theorem dispatchDyn_events (b : Bindings) : ∀ es : List Event,
+    dispatchDyn b (es.map DynItem.event) = es.flatMap (dispatchEvent b)
+  | [] => rfl
+  | e :: r => by simp only [List.map_cons, dispatchDyn, List.flatMap_cons, dispatchDyn_events b r]
+
+/-- EXACTLY ONCE, IN PANEL ORDER.  For every binding set and every history of messages handed to the dispatcher: the
+invocation log is exactly, event by event in panel order, one invocation per bound handler whose kind matches a
+component of the event — and none of any other handler — with the event's id and arguments.  The specification side
+(`Spec.Gorwp.checkLog` / `groupOk`) states this per kind of handler by counting and membership; it does not compute
+the expected log. -/
 theorem dispatch_exactly_once_in_order (b : Bindings) (h : List OutMsg) :
     checkLog (toSBindings b) (eventsOf (histItems h)) ((dispatch b h).map toSInv) = .ok := by
-  rw [eventsOf_histItems, dispatch_flat]
-  exact checkLog_events b _
+  rw [eventsOf_histItems, dispatch_flat, ← dispatchDyn_events]
+  unfold checkLog
+  have := dispatchDyn_exactly_once_in_order ((h.flatMap (·.events)).map DynItem.event) b
+  simp only [List.map_map] at this ⊢
+  exact this
+
+/-- what the specification's group predicate means: every kind of handler is invoked exactly once if it is owed and
+not at all otherwise, and every invocation carries the event's id and arguments -/
+theorem groupOk_means_exactly_once (sb : SBindings) (e : SEvent) (g : List SInv) :
+    groupOk sb e g = true ↔ (∀ k, countKind k g = if owesKind sb e k then 1 else 0) ∧ ∀ i ∈ g, argsMatch e i = true :=
+  groupOk_iff sb e g
+
+/-- a later registration does not reach back: the log splits at any point of the run into the log of what came before
+and the log of the rest under the handlers registered by then -/
+def bindingsAfter (b : Bindings) : List DynItem → Bindings
+  | [] => b
+  | .bind k id :: r => bindingsAfter (b.add k id) r
+  | .event _ :: r => bindingsAfter b r
+
+theorem dispatchDyn_append : ∀ (pre post : List DynItem) (b : Bindings),
+    dispatchDyn b (pre ++ post) = dispatchDyn b pre ++ dispatchDyn (bindingsAfter b pre) post
+  | [], _, _ => rfl
+  | .bind k id :: r, post, b => by
+    simp only [List.cons_append, dispatchDyn, bindingsAfter]; exact dispatchDyn_append r post _
+  | .event e :: r, post, b => by
+    simp only [List.cons_append, dispatchDyn, bindingsAfter, List.append_assoc]; rw [dispatchDyn_append r post b]
+
+theorem bindingsAfter_bind_has (b : Bindings) (k : RawPanelVerif.Gorwp.Kind) (id : Nat) :
+    (bindingsAfter b [.bind k id]).has k id = true := by
+  cases k <;> simp [bindingsAfter, Bindings.add, Bindings.has]
+
+/-- two binding sets with the same handlers -/
+def SameHandlers (b b' : Bindings) : Prop := ∀ k id, b.has k id = b'.has k id
+
+theorem dispatchEvent_congr {b b' : Bindings} (h : SameHandlers b b') (e : Event) :
+    dispatchEvent b e = dispatchEvent b' e := by
+  have h1 : e.id ∈ b.trigger ↔ e.id ∈ b'.trigger := by simpa [Bindings.has] using h .trigger e.id
+  have h2 : e.id ∈ b.binary ↔ e.id ∈ b'.binary := by simpa [Bindings.has] using h .binary e.id
+  have h3 : e.id ∈ b.pulsed ↔ e.id ∈ b'.pulsed := by simpa [Bindings.has] using h .pulsed e.id
+  have h4 : e.id ∈ b.absolute ↔ e.id ∈ b'.absolute := by simpa [Bindings.has] using h .absolute e.id
+  have h5 : e.id ∈ b.intensity ↔ e.id ∈ b'.intensity := by simpa [Bindings.has] using h .intensity e.id
+  unfold dispatchEvent callTrigger callBinary callPulsed callAbsolute callIntensity
+  simp only [h1, h2, h3, h4, h5]
+
+theorem sameHandlers_add {b' b : Bindings} (h : SameHandlers b' b) (k : RawPanelVerif.Gorwp.Kind) (id : Nat)
+    (hk : b.has k id = true) : SameHandlers (b'.add k id) b := by
+  intro k' id'
+  have hh := h k' id'
+  have hkk := h k id
+  rw [hk] at hkk
+  cases k <;> cases k' <;> simp only [Bindings.add, Bindings.has] at hh hkk ⊢ <;>
+    first
+      | exact hh
+      | (simp only [List.mem_cons, decide_eq_true_eq, decide_eq_decide] at hh hkk ⊢
+         by_cases he : id' = id
+         · subst he
+           exact ⟨fun _ => hh.mp hkk, fun _ => Or.inl rfl⟩
+         · simp [he, hh])
+
+def eventsOfDyn : List DynItem → List Event
+  | [] => []
+  | .bind .. :: r => eventsOfDyn r
+  | .event e :: r => e :: eventsOfDyn r
+
+theorem rebinding_aux : ∀ (items : List DynItem) (b b' : Bindings), SameHandlers b' b →
+    (∀ k id, DynItem.bind k id ∈ items → b.has k id = true) →
+    dispatchDyn b' items = (eventsOfDyn items).flatMap (dispatchEvent b)
+  | [], _, _, _, _ => rfl
+  | .bind k id :: r, b, b', hs, hb => by
+    simp only [dispatchDyn, eventsOfDyn]
+    exact rebinding_aux r b (b'.add k id) (sameHandlers_add hs k id (hb k id (by simp)))
+      (fun k' id' hm => hb k' id' (by simp [hm]))
+  | .event e :: r, b, b', hs, hb => by
+    simp only [dispatchDyn, eventsOfDyn, List.flatMap_cons]
+    rw [dispatchEvent_congr hs e, rebinding_aux r b b' hs (fun k' id' hm => hb k' id' (by simp [hm]))]
+
+/-- re-registering handlers that are already registered (what the harness's registration-race scripts do, from a
+second goroutine, all the time) changes nothing, wherever the registrations fall between the events: the log is the
+log of the events under the initial handlers -/
+theorem rebinding_does_not_change_dispatch (items : List DynItem) (b : Bindings)
+    (hb : ∀ k id, DynItem.bind k id ∈ items → b.has k id = true) :
+    dispatchDyn b items = (eventsOfDyn items).flatMap (dispatchEvent b) :=
+  rebinding_aux items b b (fun _ _ => rfl) hb
 
 def Effect.inv? : Effect → Option Invocation
   | .invoke i => some i
@@ -361,216 +472,265 @@ theorem init_iff_four_items (h : List OutMsg) :
   rw [finalState_model, finalState_serial, finalState_topoJSON, finalState_topoSVG]
   simp [lastNonEmpty_eq_nil]
 
-/-! ## (b) reader + select loop with bounded queues -/
+/-! ### the reader's message filter (flow field ACK) -/
 
-/-- what has been dispatched, what is queued and what the reader may still accept are together exactly the messages
-before the first broken frame -/
-def QInv (stream0 : List Frame) (s : QSt) : Prop :=
-  s.dispatched ++ s.fromPanel.map (·.1) ++ (if s.readerRunning then goodPrefix s.stream else []) = goodPrefix stream0
+theorem toItems_pureAck (m : OutMsg) (hf : m.flow = .ack) (hp : pureAck m = true) : toItems m = [] := by
+  obtain ⟨flow, info, avail, topo, events⟩ := m
+  simp only [pureAck, Bool.and_eq_true, Option.isNone_iff_eq_none, List.isEmpty_iff] at hp
+  obtain ⟨⟨⟨h1, h2⟩, h3⟩, h4⟩ := hp
+  subst hf h1 h2 h3 h4
+  rfl
 
-theorem qinv_init (stream0 : List Frame) : QInv stream0 (qinit stream0) := by simp [QInv, qinit]
+theorem applyMsg_pureAck (s : PState) (m : OutMsg) (hp : pureAck m = true) : applyMsg s m = s := by
+  obtain ⟨flow, info, avail, topo, events⟩ := m
+  simp only [pureAck, Bool.and_eq_true, Option.isNone_iff_eq_none, List.isEmpty_iff] at hp
+  obtain ⟨⟨⟨h1, h2⟩, h3⟩, h4⟩ := hp
+  subst h1 h2 h3 h4
+  rfl
 
-theorem qinv_step (dec : Bool) (stream0 : List Frame) (s s' : QSt) (l : QLbl) (hi : QInv stream0 s)
-    (hs : qstep true dec s l = some s') : QInv stream0 s' := by
-  unfold QInv at *
-  cases l with
-  | readerFrame =>
-    simp only [qstep] at hs
-    split at hs
-    · rename_i hr
-      split at hs
-      · simp at hs
-      · rename_i id k rest hst
-        split at hs
-        · simp at hs; subst hs
-          simp [hr, hst, goodPrefix] at hi ⊢; exact hi
-        · simp at hs
-      · rename_i rest hst
-        simp at hs; subst hs
-        simp [hr, hst, goodPrefix] at hi ⊢; exact hi
-      · rename_i rest hst
-        simp at hs; subst hs
-        simp [hr, hst, goodPrefix] at hi ⊢; exact hi
-    · simp at hs
-  | loopTakeFrom =>
-    simp only [qstep] at hs
-    split at hs
-    · split at hs
-      · rename_i id k rest hfp
-        simp at hs; subst hs
-        simp [hfp] at hi ⊢; exact hi
-      · simp at hs
-    · simp at hs
-  | loopSend =>
-    simp only [qstep] at hs
-    split at hs
-    · split at hs
-      · simp at hs; subst hs; exact hi
-      · simp at hs
-    · simp at hs
-  | loopDrain =>
-    simp only [qstep] at hs
-    split at hs
-    · simp at hs
-    · split at hs
-      · simp at hs; subst hs; exact hi
-      · simp at hs
-  | tick =>
-    simp only [qstep] at hs
-    split at hs
-    · simp at hs; subst hs; exact hi
-    · split at hs
-      · simp at hs; subst hs; exact hi
-      · simp at hs
-  | writerDrain =>
-    simp only [qstep] at hs
-    split at hs
-    · simp at hs; subst hs; exact hi
-    · simp at hs
+theorem dispatchMsg_pureAck (b : Bindings) (m : OutMsg) (hp : pureAck m = true) : dispatchMsg b m = [] := by
+  simp only [pureAck, Bool.and_eq_true, List.isEmpty_iff] at hp
+  simp [dispatchMsg, hp.2]
 
-theorem qinv_reachable {dec : Bool} {stream0 : List Frame} {s : QSt} (h : QReachable true dec stream0 s) : QInv stream0 s := by
+/-- THE READER'S FILTER LOSES NOTHING — provided every message whose flow field is ACK carries nothing else (the guard
+is exact, see `ack_message_with_event_dropped_counterexample`): the invocation log, the number of acknowledges sent and
+the state are those of the unfiltered history, so every theorem above about `dispatch` / `effects` / `finalState`
+holds for what the panel SENT.  Without the guard for a reader that forwards everything (`dropAck = false`, the ASCII
+reader). -/
+theorem reader_filter_transparent (dropAck : Bool) (b : Bindings) : ∀ (h : List OutMsg) (s : PState),
+    (∀ m ∈ h, m.flow = .ack → pureAck m = true) →
+    clientLog dropAck b h = dispatch b h ∧ clientAcks dropAck h = acks h ∧ clientState dropAck s h = finalState s h
+      ∧ histItems (readerView dropAck h) = histItems h
+  | [], _, _ => ⟨rfl, rfl, rfl, rfl⟩
+  | m :: r, s, hg => by
+    have hr : ∀ m' ∈ r, m'.flow = .ack → pureAck m' = true := fun m' hm => hg m' (by simp [hm])
+    by_cases hk : readerKeeps dropAck m = true
+    · obtain ⟨i1, i2, i3, i4⟩ := reader_filter_transparent dropAck b r (applyMsg s m) hr
+      unfold clientLog clientAcks clientState readerView at *
+      simp only [List.filter_cons, hk, if_true]
+      refine ⟨?_, ?_, ?_, ?_⟩
+      · simp only [dispatch, List.flatMap_cons] at i1 ⊢; rw [i1]
+      · simp only [acks, List.filter_cons] at i2 ⊢; split <;> simp_all
+      · simp only [finalState, List.foldl_cons] at i3 ⊢; exact i3
+      · simp only [histItems, List.flatMap_cons] at i4 ⊢; rw [i4]
+    · have hack : m.flow = .ack := by
+        cases hd : dropAck <;> simp [readerKeeps, hd] at hk
+        exact hk
+      have hp := hg m (by simp) hack
+      obtain ⟨i1, i2, i3, i4⟩ := reader_filter_transparent dropAck b r s hr
+      unfold clientLog clientAcks clientState readerView at *
+      simp only [List.filter_cons, hk]
+      refine ⟨?_, ?_, ?_, ?_⟩
+      · simp only [dispatch, List.flatMap_cons, dispatchMsg_pureAck b m hp, List.nil_append] at i1 ⊢; exact i1
+      · simp only [acks, List.filter_cons, hack] at i2 ⊢; simpa using i2
+      · simp only [finalState, List.foldl_cons, applyMsg_pureAck s m hp] at i3 ⊢; exact i3
+      · simp only [histItems, List.flatMap_cons, toItems_pureAck m hack hp, List.nil_append] at i4 ⊢; exact i4
+
+theorem readerView_keep_all (h : List OutMsg) : readerView false h = h := by
+  simp [readerView, readerKeeps]
+
+/-- exactly-once dispatch for what the panel sent, through the reader's filter -/
+theorem client_dispatch_exactly_once_in_order (dropAck : Bool) (b : Bindings) (h : List OutMsg)
+    (hg : ∀ m ∈ h, m.flow = .ack → pureAck m = true) :
+    checkLog (toSBindings b) (eventsOf (histItems h)) ((clientLog dropAck b h).map toSInv) = .ok := by
+  rw [(reader_filter_transparent dropAck b h {} hg).1]
+  exact dispatch_exactly_once_in_order b h
+
+/-- the same without any guard for a reader that forwards every message -/
+theorem client_dispatch_exactly_once_in_order_keep_all (b : Bindings) (h : List OutMsg) :
+    checkLog (toSBindings b) (eventsOf (histItems h)) ((clientLog false b h).map toSInv) = .ok := by
+  unfold clientLog; rw [readerView_keep_all]
+  exact dispatch_exactly_once_in_order b h
+
+/-- CODE AS IT IS, binary reader: a message with flow field ACK that also carries an event is dropped whole — the bound
+handler is not invoked for an event the panel sent (the specification's verdict: the log is short).  A reader that
+drops only the acknowledge itself dispatches it. -/
+theorem ack_message_with_event_dropped_counterexample :
+    let m : OutMsg := { flow := .ack, events := [{ id := 1, binary := some ⟨true, 0⟩ }] }
+    let b : Bindings := { binary := [1] }
+    clientLog true b [m] = []
+    ∧ checkLog (toSBindings b) (eventsOf (histItems [m])) ((clientLog true b [m]).map toSInv) = .short
+    ∧ checkLog (toSBindings b) (eventsOf (histItems [m])) ((clientLog false b [m]).map toSInv) = .ok := by decide
+
+/-! ### `Connect` -/
+
+theorem setIfNonEmpty_ne_nil (old new : List Nat) (h : old ≠ []) : setIfNonEmpty old new ≠ [] := by
+  unfold setIfNonEmpty; split <;> simp_all
+
+theorem isInitialized_applyMsg (s : PState) (m : OutMsg) (h : isInitialized s = true) : isInitialized (applyMsg s m) = true := by
+  simp only [isInitialized, Bool.and_eq_true, decide_eq_true_eq] at h ⊢
+  obtain ⟨⟨⟨h1, h2⟩, h3⟩, h4⟩ := h
+  unfold applyMsg
+  cases m.info <;> cases m.avail <;> cases m.topo <;>
+    simp only [] <;> refine ⟨⟨⟨?_, ?_⟩, ?_⟩, ?_⟩ <;>
+    first | assumption | exact setIfNonEmpty_ne_nil _ _ (by assumption)
+
+theorem isInitialized_finalState (h : List OutMsg) : ∀ (s : PState), isInitialized s = true → isInitialized (finalState s h) = true := by
   induction h with
-  | init => exact qinv_init stream0
-  | step l _ hs ih => exact qinv_step dec stream0 _ _ l ih hs
+  | nil => intro s hs; exact hs
+  | cons m r ih => intro s hs; exact ih _ (isInitialized_applyMsg s m hs)
+
+/-- `init` with the repaired `ctx.Done()` branch: the result is the initialisation state at the end of the window -/
+theorem connectFrom_strict : ∀ (evs : List InitEv) (s : PState),
+    connectFrom true s evs = isInitialized (finalState s (windowMsgs evs))
+  | [], s => rfl
+  | .dispatched m :: r, s => by
+    simp only [connectFrom, windowMsgs, finalState_cons]
+    rw [connectFrom_strict r]
+    cases hs : isInitialized s with
+    | false => simp
+    | true =>
+      have := isInitialized_finalState (windowMsgs r) _ (isInitialized_applyMsg s m hs)
+      unfold finalState at this ⊢
+      simp [this]
+  | .ctxDone :: _, s => by simp [connectFrom, windowMsgs, finalState]
+  | .windowClosed :: _, s => by simp [connectFrom, windowMsgs, finalState]
+
+/-- the pinned `init`: additionally "succeeds" whenever the window ends by a cancelled context -/
+theorem connectFrom_pinned : ∀ (evs : List InitEv) (s : PState),
+    connectFrom false s evs = (isInitialized (finalState s (windowMsgs evs)) || endedByCtxDone evs)
+  | [], s => by simp [connectFrom, windowMsgs, finalState, endedByCtxDone]
+  | .dispatched m :: r, s => by
+    simp only [connectFrom, windowMsgs, finalState_cons, endedByCtxDone]
+    rw [connectFrom_pinned r]
+    cases hs : isInitialized s with
+    | false => simp
+    | true =>
+      have := isInitialized_finalState (windowMsgs r) _ (isInitialized_applyMsg s m hs)
+      unfold finalState at this ⊢
+      simp [this]
+  | .ctxDone :: _, s => by simp [connectFrom, windowMsgs, finalState, endedByCtxDone]
+  | .windowClosed :: _, s => by simp [connectFrom, windowMsgs, finalState, endedByCtxDone]
+
+/-- CONNECT RESULT, code as it should be (`ctx.Done()` during initialisation is an error unless the state is
+initialised): for every course of the initialisation window — any messages in any order, the window ended by the timer,
+by the loss of the connection (EOF, over-limit header, stalled frame) or by the caller's cancel — connecting succeeds
+exactly when model, serial, topology JSON and SVG arrived within the window -/
+theorem connect_succeeds_iff_four_items_in_window (evs : List InitEv) :
+    connect true evs = allFourArrived (windowItems evs)
+    ∧ connectResult (windowItems evs) (connect true evs) = none := by
+  have h : connect true evs = allFourArrived (windowItems evs) := by
+    unfold connect windowItems
+    rw [connectFrom_strict, init_iff_four_items]
+  exact ⟨h, by simp [connectResult, h]⟩
+
+/-- CODE AS IT IS: the same holds as long as the window is ended by the timer or by the fourth item (guard exact:
+next theorem) -/
+theorem connect_pinned_ok_when_connection_survives_window (evs : List InitEv) (hc : endedByCtxDone evs = false) :
+    connect false evs = allFourArrived (windowItems evs)
+    ∧ connectResult (windowItems evs) (connect false evs) = none := by
+  have h : connect false evs = allFourArrived (windowItems evs) := by
+    unfold connect windowItems
+    rw [connectFrom_pinned, init_iff_four_items, hc, Bool.or_false]
+  exact ⟨h, by simp [connectResult, h]⟩
+
+/-- CODE AS IT IS: whenever the connection is lost (or the context cancelled) inside the window, `Connect` returns
+success — whatever has arrived -/
+theorem connect_pinned_succeeds_on_lost_connection (evs : List InitEv) (hc : endedByCtxDone evs = true) :
+    connect false evs = true := by
+  unfold connect; rw [connectFrom_pinned, hc, Bool.or_true]
+
+/-- CODE AS IT IS: the panel closes the connection right after the probe, nothing has arrived, `Connect` returns
+`(panel, nil)`; and the same after model and serial only.  The specification's verdict, and the repaired `init` on the
+same histories. -/
+theorem connect_pinned_success_on_lost_connection_counterexample :
+    let info : OutMsg := { info := some { model := [77, 49], serial := [83, 49] } }
+    connect false [.ctxDone] = true
+    ∧ connectResult (windowItems [.ctxDone]) (connect false [.ctxDone]) = some "connect_succeeded_although_item_missing"
+    ∧ connect false [.dispatched info, .ctxDone] = true
+    ∧ connectResult (windowItems [.dispatched info, .ctxDone]) (connect false [.dispatched info, .ctxDone])
+        = some "connect_succeeded_although_item_missing"
+    ∧ connect true [.ctxDone] = false ∧ connect true [.dispatched info, .ctxDone] = false := by decide
+
+/-! ## (b) reader, dispatcher and writer around the two bounded queues
+
+All theorems hold for every pair of queue capacities `c : Caps` (where needed: both at least 1); `caps` are the
+capacities read from the source (`make(chan …, N)` in `Connect`, via `Gen.gorwpFromPanelCap` / `Gen.gorwpToPanelCap`). -/
+
+theorem caps_pos : 0 < caps.fromPanel ∧ 0 < caps.toPanel := by decide
 
 /-- REPAIRED reader (the over-limit branch returns): in every reachable state the dispatched messages are a prefix of
-the valid messages that precede the first over-limit or truncated frame — nothing after a broken frame is ever
+the forwarded messages that precede the first over-limit or truncated frame — nothing after a broken frame is ever
 dispatched, and nothing is dispatched twice or out of order -/
-theorem nothing_after_broken_frame (dec : Bool) (stream0 : List Frame) (s : QSt) (h : QReachable true dec stream0 s) :
-    ∃ t, s.dispatched ++ t = goodPrefix stream0 := by
+theorem nothing_after_broken_frame (c : Caps) (dec : Bool) (stream0 : List Frame) (s : QSt)
+    (h : QReachable c true dec stream0 s) : ∃ t, s.dispatched ++ t = goodPrefix stream0 := by
   have := qinv_reachable h
   unfold QInv at this
   exact ⟨s.fromPanel.map (·.1) ++ (if s.readerRunning then goodPrefix s.stream else []), by rw [← this]; simp⟩
 
 /-- PINNED reader: an over-limit header is only logged; the frame that follows it is dispatched -/
 theorem overlimit_keeps_parsing_counterexample :
-    (qrun false false (qinit [.overLimit, .valid 7 0]) [.readerFrame, .readerFrame, .loopTakeFrom]).map
+    (qrun caps false false (qinit [.overLimit, .valid 7 0]) [.readerFrame, .readerFrame, .loopTakeFrom]).map
       (fun s => decide (s.dispatched = [7] ∧ goodPrefix [Frame.overLimit, .valid 7 0] = [])) = some true := by decide
 
 /-- the same execution with the repaired reader stops at the broken frame -/
 theorem overlimit_repaired_on_trace :
-    (qrun true false (qinit [.overLimit, .valid 7 0]) [.readerFrame]).map
+    (qrun caps true false (qinit [.overLimit, .valid 7 0]) [.readerFrame]).map
       (fun s => decide (s.readerRunning = false ∧ s.dispatched = [])) = some true
-    ∧ qrun true false (qinit [.overLimit, .valid 7 0]) [.readerFrame, .readerFrame] = none := by decide
+    ∧ qrun caps true false (qinit [.overLimit, .valid 7 0]) [.readerFrame, .readerFrame] = none := by decide
 
-/-- twelve events whose handler sends one feedback message each -/
-def burst12 : List Frame := (List.range 12).map (fun i => Frame.valid i 1)
+/-- two more events than `toPanel` holds, whose handler sends one feedback message each -/
+def burst : List Frame := (List.range (caps.toPanel + 2)).map (fun i => Frame.valid i 1)
 
-/-- the loop takes each event as soon as it arrives and never gets to drain its own queue: after ten feedback sends
-the queue is full and the eleventh blocks the only goroutine that could drain it -/
+/-- the loop takes each event as soon as it arrives and never gets to drain its own queue: after `cap` feedback sends
+the queue is full and the next one blocks the only goroutine that could drain it -/
 def deadlockTrace : List QLbl :=
-  (List.range 10).flatMap (fun _ => [QLbl.readerFrame, .loopTakeFrom, .loopSend]) ++ [.readerFrame, .loopTakeFrom]
+  (List.range caps.toPanel).flatMap (fun _ => [QLbl.readerFrame, .loopTakeFrom, .loopSend]) ++ [.readerFrame, .loopTakeFrom]
 
 /-- PINNED loop: a reachable state in which the loop goroutine is blocked on the full queue that only it drains,
 while an event is still waiting -/
 theorem queue_self_deadlock_counterexample :
-    (qrun false false (qinit burst12) deadlockTrace).map (fun s => blocked s && pending s && decide (s.dispatched.length = 11)) = some true := by
+    (qrun caps false false (qinit burst) deadlockTrace).map
+      (fun s => blocked caps s && pending s && decide (s.dispatched.length = caps.toPanel + 1)) = some true := by
   decide
 
 /-- PINNED loop: that state is permanent — no step ever unblocks the loop -/
-theorem pinned_blocked_is_permanent (strict : Bool) (s s' : QSt) (l : QLbl) (hb : blocked s = true)
-    (hs : qstep strict false s l = some s') : blocked s' = true ∧ s'.dispatched = s.dispatched := by
+theorem pinned_blocked_is_permanent (c : Caps) (strict : Bool) (s s' : QSt) (l : QLbl) (hb : blocked c s = true)
+    (hs : qstep c strict false s l = some s') : blocked c s' = true ∧ s'.dispatched = s.dispatched := by
   unfold blocked at hb
   split at hb
   · rename_i r hl
     simp at hb
     cases l with
     | readerFrame =>
-      simp only [qstep] at hs
-      split at hs
-      · split at hs
-        · simp at hs
-        · split at hs
-          · simp at hs; subst hs; simp [blocked, hl, hb]
-          · simp at hs
-        · split at hs <;> (simp at hs; subst hs; simp [blocked, hl, hb])
-        · simp at hs; subst hs; simp [blocked, hl, hb]
-      · simp at hs
-    | loopTakeFrom => simp [qstep, hl] at hs
-    | loopSend => simp [qstep, hl, hb] at hs
-    | loopDrain => simp [qstep, hl] at hs
-    | tick => simp [qstep, hl] at hs
-    | writerDrain => simp [qstep] at hs
+      obtain ⟨_, f, rest, _, h | h | h⟩ := step_reader hs
+      · obtain ⟨id, k, _, _, rfl⟩ := h; simp [blocked, hl, hb]
+      · obtain ⟨_, rfl⟩ := h; simp [blocked, hl, hb]
+      · obtain ⟨_, rfl⟩ := h; simp [blocked, hl, hb]
+    | loopTakeFrom => obtain ⟨hi, _⟩ := step_take hs; rw [hl] at hi; cases hi
+    | loopSend => obtain ⟨_, _, hc, _⟩ := step_send hs; omega
+    | loopDrain => obtain ⟨_, hi, _⟩ := step_loopDrain hs; rw [hl] at hi; cases hi
+    | tick =>
+      rcases step_tick hs with ⟨hd, _⟩ | ⟨_, hi, _⟩
+      · cases hd
+      · rw [hl] at hi; cases hi
+    | writerDrain => obtain ⟨hd, _⟩ := step_writerDrain hs; cases hd
   · simp at hb
 
-/-- REPAIRED loop (writer decoupled from the dispatcher): a blocked dispatcher is always released by the writer,
-which is never itself waiting on the queue -/
-theorem decoupled_blocked_is_released (strict : Bool) (s : QSt) (hb : blocked s = true) :
-    ∃ s', qstep strict true s .writerDrain = some s' ∧ blocked s' = false := by
+/-- CODE AS IT IS (writer decoupled from the dispatcher): a blocked dispatcher is always released by the writer,
+which is never itself waiting on the queue — for every capacity ≥ 1 -/
+theorem decoupled_blocked_is_released_any_capacity (c : Caps) (ht : 0 < c.toPanel) (strict : Bool) (s : QSt)
+    (hb : blocked c s = true) : ∃ s', qstep c strict true s .writerDrain = some s' ∧ blocked c s' = false := by
   unfold blocked at hb
   split at hb
   · rename_i r hl
     simp at hb
     refine ⟨{ s with toPanel := s.toPanel - 1, written := s.written + 1 }, ?_, ?_⟩
-    · simp [qstep, hb, cap]
-    · simp [blocked, hl, hb, cap]
+    · simp [qstep, hb, ht]
+    · simp [blocked, hl, hb]; omega
   · simp at hb
 
-/-- the loop is never in a state without a send to do while "sending" -/
-def QInv2 (s : QSt) : Prop := s.loop ≠ .sending 0
+/-- … in particular for the capacities of the source -/
+theorem decoupled_blocked_is_released (strict : Bool) (s : QSt) (hb : blocked caps s = true) :
+    ∃ s', qstep caps strict true s .writerDrain = some s' ∧ blocked caps s' = false :=
+  decoupled_blocked_is_released_any_capacity caps caps_pos.2 strict s hb
 
-theorem qinv2_step (strict dec : Bool) (s s' : QSt) (l : QLbl) (hi : QInv2 s) (hs : qstep strict dec s l = some s') : QInv2 s' := by
-  unfold QInv2 at *
-  cases l with
-  | readerFrame =>
-    simp only [qstep] at hs
-    split at hs
-    · split at hs
-      · simp at hs
-      · split at hs
-        · simp at hs; subst hs; exact hi
-        · simp at hs
-      · split at hs <;> (simp at hs; subst hs; exact hi)
-      · simp at hs; subst hs; exact hi
-    · simp at hs
-  | loopTakeFrom =>
-    simp only [qstep] at hs
-    split at hs
-    · split at hs
-      · rename_i id k rest _
-        simp at hs; subst hs
-        by_cases hk : k = 0 <;> simp [hk]
-      · simp at hs
-    · simp at hs
-  | loopSend =>
-    simp only [qstep] at hs
-    split at hs
-    · rename_i r _
-      split at hs
-      · simp at hs; subst hs
-        by_cases hr : r = 0 <;> simp [hr]
-      · simp at hs
-    · simp at hs
-  | loopDrain =>
-    simp only [qstep] at hs
-    split at hs
-    · simp at hs
-    · split at hs
-      · simp at hs; subst hs; exact hi
-      · simp at hs
-  | tick =>
-    simp only [qstep] at hs
-    split at hs
-    · simp at hs; subst hs; exact hi
-    · split at hs
-      · simp at hs; subst hs; simp
-      · simp at hs
-  | writerDrain =>
-    simp only [qstep] at hs
-    split at hs
-    · simp at hs; subst hs; exact hi
-    · simp at hs
-
-theorem qinv2_reachable {strict dec : Bool} {stream0 : List Frame} {s : QSt} (h : QReachable strict dec stream0 s) : QInv2 s := by
-  induction h with
-  | init => simp [QInv2, qinit]
-  | step l _ hs ih => exact qinv2_step strict dec _ _ l ih hs
-
-/-- REPAIRED loop: whenever events are pending, one of the steps that move them on (reader, take, send, writer —
-not counting the ticker) is enabled: there is no stuck state with pending events -/
-theorem no_stuck_state_with_pending_events (strict : Bool) (stream0 : List Frame) (s : QSt)
-    (h : QReachable strict true stream0 s) (hp : pending s = true) :
-    ∃ l, l ≠ QLbl.tick ∧ (qstep strict true s l).isSome = true := by
+/-- CODE AS IT IS: whenever events are pending, one of the steps that move them on (reader, take, send, writer —
+not counting the ticker) is enabled: there is no stuck state with pending events — for all capacities ≥ 1 -/
+theorem no_stuck_state_with_pending_events_any_capacity (c : Caps) (hf : 0 < c.fromPanel) (ht : 0 < c.toPanel)
+    (strict : Bool) (stream0 : List Frame) (s : QSt)
+    (h : QReachable c strict true stream0 s) (hp : pending s = true) :
+    ∃ l, l ≠ QLbl.tick ∧ (qstep c strict true s l).isSome = true := by
   have h2 := qinv2_reachable h
   unfold QInv2 at h2
   cases hl : s.loop with
@@ -578,21 +738,66 @@ theorem no_stuck_state_with_pending_events (strict : Bool) (stream0 : List Frame
     cases r with
     | zero => exact absurd hl h2
     | succ r =>
-      by_cases hc : s.toPanel < cap
+      by_cases hc : s.toPanel < c.toPanel
       · exact ⟨.loopSend, by simp, by simp [qstep, hl, hc]⟩
-      · have : s.toPanel > 0 := by simp [cap] at hc; omega
+      · have : s.toPanel > 0 := by omega
         exact ⟨.writerDrain, by simp, by simp [qstep, this]⟩
   | idle =>
-    cases hf : s.fromPanel with
-    | cons x rest => exact ⟨.loopTakeFrom, by simp, by simp [qstep, hl, hf]⟩
+    cases hfp : s.fromPanel with
+    | cons x rest => exact ⟨.loopTakeFrom, by simp, by simp [qstep, hl, hfp]⟩
     | nil =>
-      simp [pending, hf] at hp
+      simp [pending, hfp] at hp
       obtain ⟨hr, hst⟩ := hp
       cases hs : s.stream with
       | nil => simp [hs] at hst
       | cons f rest =>
         refine ⟨.readerFrame, by simp, ?_⟩
-        cases f <;> cases strict <;> simp [qstep, hr, hs, hf, cap]
+        cases f <;> cases strict <;> simp [qstep, hr, hs, hfp, hf]
+
+theorem no_stuck_state_with_pending_events (strict : Bool) (stream0 : List Frame) (s : QSt)
+    (h : QReachable caps strict true stream0 s) (hp : pending s = true) :
+    ∃ l, l ≠ QLbl.tick ∧ (qstep caps strict true s l).isSome = true :=
+  no_stuck_state_with_pending_events_any_capacity caps caps_pos.1 caps_pos.2 strict stream0 s h hp
+
+/-- PROGRESS MEASURE, code as it is, every capacity: `measure` = frames still to be read (with the sends their
+handlers will make), queued messages, the dispatcher's sends still to do, queued outgoing messages.  Every step of the
+reader, the dispatcher or the writer makes it strictly smaller; a tick adds at most one (its ping); hence an
+execution has at most `measure` + (number of ticks) steps that are not ticks. -/
+theorem progress_measure_decreases (c : Caps) (strict : Bool) (s s' : QSt) (l : QLbl)
+    (hs : qstep c strict true s l = some s') :
+    (l ≠ .tick → measure c s' < measure c s) ∧ (l = .tick → measure c s' ≤ measure c s + 1) :=
+  ⟨fun hl => measure_step_lt hl hs, fun hl => by subst hl; exact measure_tick_le hs⟩
+
+theorem tickfree_execution_bounded (c : Caps) (strict : Bool) (ls : List QLbl) (s s' : QSt)
+    (hl : ∀ l ∈ ls, l ≠ QLbl.tick) (h : qrun c strict true s ls = some s') : ls.length + measure c s' ≤ measure c s :=
+  tickfree_run_bounded ls s s' hl h
+
+/-- ALL DISPATCHED EVENTUALLY, code as it is (over-limit branch returns, writer decoupled), every pair of capacities
+≥ 1, every stream of frames: in every infinite run that is (strongly) fair to the reader's, the dispatcher's and the
+writer's steps — the ticker may fire whenever it likes — from some point on every message before the first broken
+frame has been handed to the handlers (exactly those, once, in order).  (Strong fairness is needed only because the
+abstraction lets the ticker's ping take a slot the writer has just freed for the waiting dispatcher.) -/
+theorem all_dispatched_eventually (c : Caps) (hf : 0 < c.fromPanel) (ht : 0 < c.toPanel) (stream0 : List Frame)
+    (r : QRun c true) (h0 : r.st 0 = qinit stream0) (fair : ∀ l, l ≠ QLbl.tick → r.Fair l) :
+    ∃ n, ∀ m, n ≤ m → (r.st m).dispatched = goodPrefix stream0 := by
+  have hreach := run_reachable r h0
+  have h2 : ∀ n, QInv2 (r.st n) := fun n => qinv2_reachable (hreach n)
+  have h3 : ∀ n, QInv3 c (r.st n) := fun n => qinv3_reachable (hreach n)
+  obtain ⟨n, _, hz⟩ := rem_reaches_zero r fair hf ht h2 h3 (rem (r.st 0)) 0 (Nat.le_refl _)
+  refine ⟨n, fun m hm => ?_⟩
+  have hzm : rem (r.st m) = 0 := by have := run_rem_mono' r hm; omega
+  have hinv := qinv_reachable (hreach m)
+  unfold QInv at hinv
+  unfold rem at hzm
+  have hfp : (r.st m).fromPanel = [] := List.eq_nil_of_length_eq_zero (by omega)
+  rw [← hinv, hfp]
+  cases hr : (r.st m).readerRunning with
+  | false => simp
+  | true =>
+    have : (r.st m).stream = [] := by
+      rw [hr] at hzm; simp only [if_true] at hzm
+      exact List.eq_nil_of_length_eq_zero (by omega)
+    simp [this, goodPrefix]
 
 /-! ## non-vacuity -/
 
@@ -603,11 +808,97 @@ example : checkLog (toSBindings { trigger := [1], binary := [1, 2] })
 example : (dispatch { trigger := [1], binary := [1, 2] }
     [{ events := [{ id := 1, binary := some ⟨true, 4⟩ }, { id := 2, pulsed := some 1 }, { id := 2, binary := some ⟨false, 0⟩ }] }]).length = 3 := by decide
 
-/-- the checker is not trivially `ok`: a duplicated invocation is rejected -/
+/-- the checker is not trivially `ok`: a duplicated invocation, a missing one, one of an unbound handler, one with a
+wrong argument and two groups in the wrong order are rejected; the order inside one group is free -/
 example : checkLog { binary := [1] } [{ id := 1, binary := some (true, 0) }] [.binary 1 1 0, .binary 1 1 0] = .extra := by decide
+example : checkLog { binary := [1], trigger := [1] } [{ id := 1, binary := some (true, 0) }] [.binary 1 1 0, .binary 1 1 0] = .mismatch := by decide
+example : checkLog { binary := [1] } [{ id := 1, binary := some (true, 0) }] [] = .short := by decide
+example : checkLog { binary := [1] } [{ id := 1, binary := some (true, 0) }] [.pulsed 1 1] = .mismatch := by decide
+example : checkLog { binary := [1] } [{ id := 1, binary := some (true, 4) }] [.binary 1 0 4] = .mismatch := by decide
+example : checkLog { binary := [1, 2] } [{ id := 1, binary := some (true, 0) }, { id := 2, binary := some (true, 0) }]
+    [.binary 2 1 0, .binary 1 1 0] = .mismatch := by decide
+example : checkLog { binary := [1], trigger := [1] } [{ id := 1, binary := some (true, 0) }]
+    [.binary 1 1 0, .trigger 1 { id := 1, binary := some (true, 0) }] = .ok := by decide
 
-/-- a reachable state of the repaired loop in which the dispatcher is blocked and events are pending -/
-example : (qrun true true (qinit burst12) deadlockTrace).map (fun s => blocked s && pending s) = some true := by decide
+/-- a handler registered between two events of the same component sees the second one only -/
+example : dispatchDyn {} [.event { id := 3, pulsed := some 1 }, .bind .pulsed 3, .event { id := 3, pulsed := some (-1) }]
+    = [.pulsed 3 (-1)] := by decide
+example : checkLogDyn {} [.event { id := 3, pulsed := some 1 }, .bind .pulsed 3, .event { id := 3, pulsed := some (-1) }]
+    [.pulsed 3 1, .pulsed 3 (-1)] = .mismatch := by decide
+
+/-- an acknowledge that carries nothing is dropped without loss -/
+example : clientLog true { binary := [1] } [{ flow := .ack }, { events := [{ id := 1, binary := some ⟨true, 0⟩ }] }]
+    = [.binary 1 1 0] := by decide
+
+/-- the four items arriving in two messages make `Connect` succeed in both variants; the SVG arriving after the
+window makes it fail -/
+example : connect true [.dispatched { info := some { model := [77], serial := [83] } },
+    .dispatched { topo := some { json := [123], svg := [60] } }, .ctxDone] = true := by decide
+example : connect false [.dispatched { info := some { model := [77], serial := [83] } },
+    .dispatched { topo := some { json := [123] } }, .windowClosed, .dispatched { topo := some { svg := [60] } }] = false := by decide
+
+/-- a reachable state of the code as it is in which the dispatcher is blocked and events are pending -/
+example : (qrun caps true true (qinit burst) deadlockTrace).map (fun s => blocked caps s && pending s) = some true := by decide
+
+/-- the measure of that burst -/
+example : measure caps (qinit burst) = (caps.toPanel + 2) * (2 + (caps.toPanel + 1)) := by decide
+
+/-- a fair run: read, take, send, then writer and ticker in turn for ever -/
+def demoSt : Nat → QSt
+  | 0 => qinit [.valid 7 1]
+  | 1 => { stream := [], fromPanel := [(7, 1)] }
+  | 2 => { stream := [], dispatched := [7], loop := .sending 1 }
+  | k + 3 => { stream := [], dispatched := [7], toPanel := (k + 1) % 2, written := (k + 1) / 2 }
+
+def demoLb : Nat → QLbl
+  | 0 => .readerFrame
+  | 1 => .loopTakeFrom
+  | 2 => .loopSend
+  | k + 3 => if k % 2 = 0 then .writerDrain else .tick
+
+def demoRun : QRun caps true where
+  st := demoSt
+  lb := demoLb
+  step := by
+    intro n
+    match n with
+    | 0 => decide
+    | 1 => decide
+    | 2 => decide
+    | k + 3 =>
+      show qstep caps true true (demoSt (k + 3)) (demoLb (k + 3)) = some (demoSt (k + 1 + 3))
+      simp only [demoSt, demoLb]
+      by_cases hk : k % 2 = 0
+      · have h1 : (k + 1) % 2 = 1 := by omega
+        have h2 : (k + 1 + 1) % 2 = 0 := by omega
+        have h3 : (k + 1 + 1) / 2 = (k + 1) / 2 + 1 := by omega
+        simp [hk, qstep, h1, h2, h3]
+      · have h1 : (k + 1) % 2 = 0 := by omega
+        have h2 : (k + 1 + 1) % 2 = 1 := by omega
+        have h3 : (k + 1 + 1) / 2 = (k + 1) / 2 := by omega
+        simp [hk, qstep, h1, h2, h3, caps, Gen.gorwpToPanelCap]
+
+theorem demo_fair : ∀ l, l ≠ QLbl.tick → demoRun.Fair l := by
+  intro l hl hen n
+  -- from step 3 on only the writer's step is ever enabled (besides the ticker)
+  have hw : ∀ k, ¬ enabled caps true (demoSt (k + 3)) .readerFrame ∧ ¬ enabled caps true (demoSt (k + 3)) .loopTakeFrom
+      ∧ ¬ enabled caps true (demoSt (k + 3)) .loopSend ∧ ¬ enabled caps true (demoSt (k + 3)) .loopDrain := by
+    intro k; simp [enabled, qstep, demoSt]
+  cases l with
+  | tick => exact absurd rfl hl
+  | writerDrain =>
+    -- taken at every even offset
+    refine ⟨2 * n + 3, by omega, ?_⟩
+    show demoLb (2 * n + 3) = .writerDrain
+    simp [demoLb]
+  | readerFrame => obtain ⟨m, hm, he⟩ := hen 3; obtain ⟨k, rfl⟩ := Nat.exists_eq_add_of_le hm; rw [Nat.add_comm] at he; exact absurd he (hw k).1
+  | loopTakeFrom => obtain ⟨m, hm, he⟩ := hen 3; obtain ⟨k, rfl⟩ := Nat.exists_eq_add_of_le hm; rw [Nat.add_comm] at he; exact absurd he (hw k).2.1
+  | loopSend => obtain ⟨m, hm, he⟩ := hen 3; obtain ⟨k, rfl⟩ := Nat.exists_eq_add_of_le hm; rw [Nat.add_comm] at he; exact absurd he (hw k).2.2.1
+  | loopDrain => obtain ⟨m, hm, he⟩ := hen 3; obtain ⟨k, rfl⟩ := Nat.exists_eq_add_of_le hm; rw [Nat.add_comm] at he; exact absurd he (hw k).2.2.2
+
+example : ∃ n, ∀ m, n ≤ m → (demoRun.st m).dispatched = [7] :=
+  all_dispatched_eventually caps caps_pos.1 caps_pos.2 [.valid 7 1] demoRun rfl demo_fair
+
 
 example : isInitialized (finalState {} [{ info := some { model := [77], serial := [83] } }, { topo := some { json := [123], svg := [60] } }]) = true := by decide
 
